@@ -22,3 +22,12 @@ package types
 //@   loop 0 invariant forall i int :: 0 <= i && i < len(end) ==> end[i] == prefix[i]
 //@   loop 0 invariant forall i int :: len(end) <= i && i < len(prefix) ==> prefix[i] == 255
 //@   loop 0 decreases len(end)
+
+// the exclusive end bound that includes `inclusiveBytes` itself: the key followed by a zero byte
+//@ func InclusiveEndBytes
+//@   props C24,C02
+//@   panics_never
+//@   ensures [len] len(exclusiveBytes) == len(inclusiveBytes) + 1 && exclusiveBytes != nil
+//@   ensures [head] forall i int :: 0 <= i && i < len(inclusiveBytes) ==> exclusiveBytes[i] == old(inclusiveBytes[i])
+//@   ensures [last] exclusiveBytes[len(inclusiveBytes)] == 0
+//@   ensures [cat] extEq(bytes(exclusiveBytes), cat(old(bytes(inclusiveBytes)), b1(0))) && bytes(exclusiveBytes) == cat(old(bytes(inclusiveBytes)), b1(0))
